@@ -177,3 +177,21 @@ let bool_view_ok (ps : psnap) (fam : int list) (t : vt) : bool =
     if (if b then 1 else 0) <> t.(a) then ok := false
   done;
   !ok
+
+(* the tautology chain (ZBDDCache::post_reorder_mut): rebuilding it on the lifted snapshot with the
+   extracted ztaut_chain must not create a node (the manager holds the whole chain after init,
+   add_vars and reordering) and taut(0) must denote all subsets of the variables.
+   Returns the chain (index = level) or an error text. *)
+let taut_chain (ps : psnap) : (Model.ref list, string) result =
+  let n = Array.length ps.l2v in
+  match Model.ztaut_chain ps.snap with
+  | None -> Error "ztaut_chain undefined (no Base terminal)"
+  | Some (s', ch) ->
+    let cnt s = List.length (Model.PositiveMap.elements s.Model.s_nodes) in
+    if cnt s' <> cnt ps.snap then
+      Error (Printf.sprintf "rebuilding the tautology chain creates %d node(s): the manager's chain is incomplete" (cnt s' - cnt ps.snap))
+    else if List.length ch <> n + 1 then Error "chain length"
+    else
+      (match Model.fam_of s' (List.hd ch) with
+       | Some f when n > 10 || Model.feq_b f (Model.f_powerset Model.O (nat n)) -> Ok ch
+       | _ -> Error "taut(0) of the model does not denote all subsets")
